@@ -841,7 +841,7 @@ static void gen_round3(rng &r, bool th)
     {
         std::vector<std::pair<unsigned, unsigned>> pats;
         if (th || len <= 4)
-            for (unsigned b = 0; b < 256; b++) { pats.push_back({1u, b}); if (th) pats.push_back({255u, b}); }
+            for (unsigned b = 0; b < 256; b++) { pats.push_back({1u, b}); if (th && b % 4 == 0) pats.push_back({255u, b}); }
         for (unsigned b : {0x00u, 0x7du, 0x80u, 0xf8u, 0xfbu, 0xffu})
             for (unsigned a : {0u, 1u, 37u}) pats.push_back({a, b});
         for (int i = 0; i < 4; i++) pats.push_back({(unsigned)r.below(256), (unsigned)r.below(256)});
@@ -886,7 +886,7 @@ static void gen_round3(rng &r, bool th)
     {
         printf("blong url %u 1 0\n", 300u * 1024u);
         printf("blong std %u 255 7\n", 1024u * 1024u + 2);
-        printf("hlong %u 3 1\n", 1024u * 1024u + 1);
+        printf("hlong %u 3 1\n", 500001u);
     }
 }
 
